@@ -122,11 +122,12 @@ type Disagreement struct {
 }
 
 type caseOutcome struct {
-	c        Case
-	disagree []Disagreement
-	failures []Failure
-	harness  []string
-	trivial  bool
+	implStatus []string
+	c          Case
+	disagree   []Disagreement
+	failures   []Failure
+	harness    []string
+	trivial    bool
 }
 
 func runCase(p *Pair, env *Env, c Case) caseOutcome {
@@ -138,6 +139,7 @@ func runCase(p *Pair, env *Env, c Case) caseOutcome {
 			out.harness = append(out.harness, fmt.Sprintf("%s: impl=%s model=%s", op.Name, ri.String(), rm.String()))
 			continue
 		}
+		out.implStatus = append(out.implStatus, op.Name+":"+ri.Status)
 		if !ri.Equal(rm) {
 			out.disagree = append(out.disagree, Disagreement{op, ri, rm})
 		}
@@ -166,8 +168,7 @@ type Property struct {
 	Corr     string   // correspondence rows (documentation for evidence/replays)
 	Rule     string   // how cases are generated and what makes one non-trivial
 	Gen      func(rng *rand.Rand, tier string, env *Env) []Case
-	Corpus   func(env *Env) []Case            // fixed cases that always run first (past failures, witnesses)
-	Findings func(p *Pair, env *Env) []string // KNOWN-FINDING lines (witness of a listed finding still fails)
+	Corpus   func(env *Env) []Case // fixed cases that always run first (past failures, witnesses)
 	Assume   []string
 	Workers  int
 }
@@ -284,18 +285,25 @@ func runProperty(pr *Property, env *Env, tier string, seed int64, lean leanResul
 	})
 
 	// known-finding witnesses
-	var findingLines []string
-	if pr.Findings != nil && !replayMode {
+	listed := listedFindings(pr.ID)
+	var findingLinesOut []string
+	if !replayMode {
 		p := env.newPair()
-		findingLines = pr.Findings(p, env)
+		var notes []string
+		findingLinesOut, notes = findingLines(pr.ID, p, env)
 		p.close()
+		for _, n := range notes {
+			fmt.Fprintln(os.Stderr, "note:", n)
+		}
 	}
+	findingLines := findingLinesOut
 	for _, l := range findingLines {
 		fmt.Println(l)
 	}
 
 	// statistics
 	kinds := map[string]int{}
+	opStatus := map[string]int{}
 	statuses := map[string]int{}
 	distinct := map[string]bool{}
 	nOps, nOracles := 0, 0
@@ -306,13 +314,16 @@ func runProperty(pr *Property, env *Env, tier string, seed int64, lean leanResul
 	for i := range outcomes {
 		o := &outcomes[i]
 		kinds[o.c.Kind]++
+		for _, st := range o.implStatus {
+			opStatus[st]++
+		}
 		nOps += len(o.c.Ops)
 		nOracles += len(o.c.Oracles)
 		distinct[o.c.hash()] = true
 		harnessErrs = append(harnessErrs, o.harness...)
 		real := 0
 		for _, f := range o.failures {
-			if f.Finding != "" {
+			if _, isListed := listed[f.Finding]; f.Finding != "" && isListed {
 				attributed[f.Finding]++
 			} else {
 				real++
@@ -343,7 +354,7 @@ func runProperty(pr *Property, env *Env, tier string, seed int64, lean leanResul
 		cj := firstFail.c.toJSON()
 		var fl []Failure
 		for _, f := range firstFail.failures {
-			if f.Finding == "" {
+			if _, isListed := listed[f.Finding]; f.Finding == "" || !isListed {
 				fl = append(fl, f)
 			}
 		}
@@ -433,6 +444,7 @@ func runProperty(pr *Property, env *Env, tier string, seed int64, lean leanResul
 		"oracle_failures":              nFail,
 		"attributed_to_known_findings": attributed,
 		"input_distribution":           kinds,
+		"implementation_outcomes":      opStatus,
 		"known_finding_lines":          findingLines,
 		"harness_errors":               len(harnessErrs),
 	}
